@@ -41,9 +41,22 @@ var (
 const caseTimeout = 45 * time.Second
 
 // Watch marks the start of a case (or progress inside one).
+var wdCur *os.File
+
 func Watch(id int, sig tr.Rec, input interface{}) {
 	wdMu.Lock()
 	wdCase, wdInput, wdSig, wdTouched = id, input, sig, time.Now()
+	// the case that is running, for whoever finds this process dead (a fatal error of the code under test)
+	if path := os.Getenv("VH_CURRENT"); path != "" {
+		if wdCur == nil {
+			wdCur, _ = os.Create(path)
+		}
+		if wdCur != nil {
+			b, _ := json.Marshal(tr.Rec{"case": id, "sig": sig, "input": input})
+			wdCur.Truncate(0)
+			wdCur.WriteAt(b, 0)
+		}
+	}
 	if !wdOn {
 		wdOn = true
 		go func() {
